@@ -70,7 +70,14 @@ Definition expected_pins_C18 : list (string * string) := [
   ("kernel/device/video/console/vga_text.go:VgaTextConsole.SetPaletteColor", "ba5ebcbedda62c93");
   ("kernel/device/video/console/vga_text.go:VgaTextConsole.Write", "a93ed0a9dcce1dba");
   ("kernel/device/video/console/vga_text.go:init", "d90cb1eecfcf2570");
-  ("kernel/device/video/console/vga_text.go:probeForVgaTextConsole", "6ac80a81693a1ae8")
+  ("kernel/device/video/console/vga_text.go:probeForVgaTextConsole", "6ac80a81693a1ae8");
+  ("kernel/hal/hal.go:<declarations>", "bf77c7629bd33ec1");
+  ("kernel/hal/hal.go:ActiveTTY", "b59d180fa01084e0");
+  ("kernel/hal/hal.go:DetectHardware", "1245ba8cf6f26ef5");
+  ("kernel/hal/hal.go:linkTTYToConsole", "fae7793d802821f5");
+  ("kernel/hal/hal.go:onConsoleInit", "ed18987fcf660752");
+  ("kernel/hal/hal.go:onDriverInit", "441f249ea2cb57df");
+  ("kernel/hal/hal.go:probe", "1c0ca4884c2797cb")
 ].
 
 Theorem C18_source_pinned : pins_C18 = expected_pins_C18.
